@@ -80,7 +80,7 @@ func init() {
 			return 1500
 		},
 		CounterFloors: func(tier string) map[string]int64 {
-			return map[string]int64{"events": 200000, "ev_Paint": 5000, "ev_DrawText": 5000, "ev_Clip": 500, "ev_Transform": 2000, "anchors_checked": 1000, "internal_links_checked": 500, "bookmarks_checked": 1000, "dangling_links_dropped": 100, "metadata_docs": 500, "multi_page_struct": 200, "dates_checked": 500, "dates_differ": 200}
+			return map[string]int64{"events": 200000, "ev_Paint": 5000, "ev_DrawText": 5000, "ev_Clip": 500, "ev_Transform": 2000, "anchors_checked": 1000, "internal_links_checked": 500, "bookmarks_checked": 1000, "dangling_links_dropped": 100, "metadata_docs": 500, "multi_page_struct": 200, "dates_checked": 500, "dates_differ": 200, "docs_collapsed-borders": 60, "docs_svg-stroke": 60}
 		},
 		Assumptions: []string{
 			"the call-sequence rules are those written in backend/graphics.go's method comments (current point before LineTo/CubicTo/ClosePath, Paint/Clip act on a non-empty current path, fonts registered with AddFont on the canvas before DrawText)",
@@ -175,6 +175,11 @@ func check(raw json.RawMessage) fw.Result {
 			res.Count("skipped_page_loop_stalls", 1)
 		}
 		return res
+	}
+	for _, fam := range []string{"degenerate-floats", "quote-stress", "collapsed-borders", "svg-stroke"} {
+		if strings.Contains(d.HTML, "<!--gen:"+fam+"-->") {
+			res.Count("docs_"+fam, 1)
+		}
 	}
 	zoom := float64(d.Zoom)
 	if zoom == 0 {
